@@ -246,10 +246,6 @@ def brackets(in_file, in_encoding, **params):
                         # close sentence
                         queue[0].data['sid'] = cnt
                         cnt += 1
-                        if 'replace_parens' in params:
-                            for subtree in trees.preorder(queue[0]):
-                                subtree = trees.replace_chars(subtree,
-                                                              trees.BRACKETS)
                         if 'disco' in params and params['disco']:
                             terminalmap = {}
                             for terminal in trees.terminals(queue[0]):
@@ -279,6 +275,10 @@ def brackets(in_file, in_encoding, **params):
                                 for terminal in trees.terminals(queue[0]):
                                     terminal.data['num'] = int(terminal.data['word'])
                                     terminal.data['word'] = tokenmap[terminal.data['num']]
+                        if 'replace_parens' in params:
+                            for subtree in trees.preorder(queue[0]):
+                                subtree = trees.replace_chars(subtree,
+                                                              trees.BRACKETS)
                         yield queue[0]
                         term_cnt = 1
                         queue = []
